@@ -788,9 +788,8 @@ def shrink_typed(i1, i2):
 _GROUPNAME = {'rawq': 'raw_sql() in a query', 'db': 'Database.select/get/exists/execute', 'E': 'select_by_sql/get_by_sql'}
 def _differs(warm, cold):
     w, c = json.loads(warm), json.loads(cold)
-    out = [k for k in ('sql', 'args') if w.get(k) != c.get(k)]
-    if (w.get('exc'), w.get('result')) != (c.get('exc'), c.get('result')): out.append('outcome')
-    return '+'.join(out) or 'statements sent'
+    if any(w.get(k) != c.get(k) for k in ('sql', 'args', 'nsent')): return 'statement sent'
+    return 'outcome'
 
 _tsig = {}
 def typed_signature(i1, i2):
